@@ -140,7 +140,41 @@ func exhaustive(run *kit.Run) {
 	})
 	run.SetExtra("exhaustive_subspace", fmt.Sprintf("all %d sets of <=%d patterns from a %d-pattern pool x all %d paths of <=3 segments over %v (with and without trailing slash): enumerated completely",
 		len(sets), maxK, len(pool), len(paths), vals))
+	// second space: hostname patterns x hosts
+	var hreqs []route.Req
+	for _, h := range []string{"", "a.com", "b.com", "c.com", "a.org", "a.com.org", "x.a.com", "a.com:80", "a.com.", "com", "a"} {
+		for _, p := range []string{"/", "/x", "/y", "/x/", "/x/y"} {
+			hreqs = append(hreqs, route.Req{Method: "GET", Host: h, Path: p})
+		}
+	}
+	var hsets [][]int
+	var hcomb func(start int, cur []int)
+	hcomb = func(start int, cur []int) {
+		if len(cur) > 0 {
+			hsets = append(hsets, append([]int(nil), cur...))
+		}
+		if len(cur) == 3 {
+			return
+		}
+		for i := start; i < len(hostPool); i++ {
+			hcomb(i+1, append(cur, i))
+		}
+	}
+	hcomb(0, nil)
+	run.Parallel(len(hsets), func(i int) {
+		var c caseFile
+		for _, k := range hsets[i] {
+			c.Routes = append(c.Routes, route.RouteSpec{Method: "GET", Pattern: hostPool[k]})
+		}
+		c.Reqs = hreqs
+		c.Split = len(c.Routes)
+		check(run, c)
+		run.Count("exhaustive_hostname_sets", 1)
+	})
+	run.SetExtra("exhaustive_hostname_subspace", fmt.Sprintf("all %d sets of <=3 patterns from a %d-pattern hostname pool x %d (host, path) requests: enumerated completely", len(hsets), len(hostPool), len(hreqs)))
 }
+
+var hostPool = []string{"a.com/", "a.com/x", "{h}.com/x", "a.{t}/x", "/x", "/{p}", "b.com/{p}", "{h}.com/", "x.a.com/x", "{s}.a.com/x", "a.com/x/", "/*{w}", "{h}.{t}/x", "a.com/*{w}"}
 
 func check(run *kit.Run, c caseFile) {
 	if c.Split > len(c.Routes) || c.Split < 0 {
